@@ -206,6 +206,10 @@ void error_handler (const char *err) {
   /* in case we're going to longjmp() from load_object or destruct_object */
   reset_destruct_object_limits();
   reset_load_object_limits();
+  /* F_EXPAND_VARARGS has counted the spread arguments for the call that
+   * follows it; if that call raises (too deep recursion, eval cost) the
+   * count must not leak into the next call, e.g. the master's error_handler */
+  num_varargs = 0;
 
   if (current_error_context &&
       ((current_error_context->save_csp + 1)->framekind & FRAME_MASK) == FRAME_CATCH &&
